@@ -86,6 +86,10 @@ def cases(tier, seed):
             for regime in ("interior", "nearbound", "large", "oob"):
                 yield {"kind": "setter", "module": spec, "regime": regime, "seed": rnd.randrange(10**6)}
             yield {"kind": "sequence", "module": spec, "length": rnd.randint(3, 8), "seed": rnd.randrange(10**6)}
+        # pyro_load_from_samples (no pyro needed): a dict of samples keyed by prior names is written through the priors'
+        # setting closures - EVERY module's parameter then reads back its own samples (modules whose priors share a local name)
+        for struct, ns_ in itertools.product(["sum_of_two", "scale_of_scale", "shared_prior_object"], [1, 3]):
+            yield {"kind": "load_samples", "struct": struct, "samples": ns_, "seed": rnd.randrange(10**6)}
         for pr in PRIORS:
             for variant in range(2):
                 yield {"kind": "prior", "prior": pr, "variant": variant, "seed": rnd.randrange(10**6)}
@@ -195,7 +199,48 @@ def run_case(case, ctx):
 
         with S.debug(False):
             return _setter(case, ctx, g)
-    return {"constraint": _constraint, "setter": _setter, "sequence": _sequence, "prior": _prior, "registered": _registered, "ctor_priors": _ctor_priors, "aliasing": _aliasing, "shared_prior": _shared_prior, "bounds_loaded": _bounds_loaded}[case["kind"]](case, ctx, g)
+    return {"constraint": _constraint, "setter": _setter, "sequence": _sequence, "prior": _prior, "registered": _registered, "ctor_priors": _ctor_priors, "aliasing": _aliasing, "shared_prior": _shared_prior, "bounds_loaded": _bounds_loaded, "load_samples": _load_samples}[case["kind"]](case, ctx, g)
+
+
+def _load_samples(case, ctx, g):
+    import torch
+
+    import gpytorch
+    from vf import util
+
+    K, P = gpytorch.kernels, gpytorch.priors
+    S_ = case["samples"]
+    if case["struct"] == "sum_of_two":
+        kern = K.RBFKernel(lengthscale_prior=P.GammaPrior(2.0, 1.0)) + K.MaternKernel(nu=1.5, lengthscale_prior=P.GammaPrior(3.0, 2.0))
+    elif case["struct"] == "scale_of_scale":
+        kern = K.ScaleKernel(K.ScaleKernel(K.RBFKernel(lengthscale_prior=P.GammaPrior(2.0, 1.0)), outputscale_prior=P.GammaPrior(2.0, 3.0)), outputscale_prior=P.GammaPrior(1.5, 1.0))
+    else:
+        one = P.GammaPrior(2.0, 1.0)  # ONE prior object on two modules: the first owner's closure is used once (documented memo)
+        kern = K.RBFKernel(lengthscale_prior=one) + K.MaternKernel(nu=2.5, lengthscale_prior=one)
+    lik = gpytorch.likelihoods.GaussianLikelihood(noise_prior=P.GammaPrior(1.1, 2.0))
+    X, y = util.randn(g, 5, 2), util.randn(g, 5)
+    m = util.GP(X, y, lik, gpytorch.means.ConstantMean(constant_prior=P.NormalPrior(0.0, 1.0)), kern)
+    seen, samples, expect = set(), {}, []
+    for name, owner, prior, closure, _ in m.named_priors():
+        if id(prior) in seen:
+            continue
+        seen.add(id(prior))
+        shape = closure(owner).shape
+        val = (util.rand(g, S_, *shape) + 0.3) if "mean" not in name else util.randn(g, S_, *shape)
+        samples[name] = val
+        expect.append((name, owner, closure, val))
+    try:
+        m.pyro_load_from_samples(samples)
+    except Exception as e:
+        ctx.fail("sample_from_prior_readback", f"pyro_load_from_samples raised {type(e).__name__}: {str(e)[:140]}", "raise", struct=case["struct"])
+        return
+    for name, owner, closure, val in expect:
+        back = closure(owner).detach()
+        ok = back.shape == val.shape or back.numel() == val.numel()
+        ctx.expect("sample_from_prior_readback", ok, f"{name}: reads back shape {tuple(back.shape)} for samples of shape {tuple(val.shape)}", struct=case["struct"], prior=name)
+        if ok:
+            ctx.close("sample_from_prior_readback", back.reshape(val.shape), val, (1e-9, 1e-9), cls="load_samples:" + case["struct"], prior=name)
+    ctx.cell({k_: v_ for k_, v_ in case.items() if k_ != "seed"}, nontrivial=True)
 
 
 def _constraint(case, ctx, g):
@@ -470,6 +515,8 @@ def _ctor_priors(case, ctx, g):
     for name, mod, prior, closure, setter in module.named_priors():
         attr = name.rsplit(".", 1)[-1][: -len("_prior")]
         attr = {"mean": "constant"}.get(attr, attr) if isinstance(mod, Mn.ConstantMean) else attr
+        if attr.startswith("raw_") and isinstance(getattr(type(mod), attr[4:], None), property):
+            attr = attr[4:]  # (some modules name the prior after the raw parameter: raw_task_noises_prior -> task_noises)
         if not name.endswith("_prior") or not isinstance(getattr(type(mod), attr, None), property):
             ctx.info[f"ctor_prior_unresolved:{cname}.{name}"] += 1
             continue
@@ -504,6 +551,8 @@ def _ctor_priors(case, ctx, g):
     for name, mod, prior, closure, setter in clone.named_priors():
         attr = name.rsplit(".", 1)[-1][: -len("_prior")]
         attr = {"mean": "constant"}.get(attr, attr) if isinstance(mod, Mn.ConstantMean) else attr
+        if attr.startswith("raw_") and isinstance(getattr(type(mod), attr[4:], None), property):
+            attr = attr[4:]  # (some modules name the prior after the raw parameter: raw_task_noises_prior -> task_noises)
         if not name.endswith("_prior") or not isinstance(getattr(type(mod), attr, None), property):
             continue
         with torch.no_grad():
